@@ -279,6 +279,12 @@ func VerifH_C20_notnull() {
 		symAssert(!ok, "refused-insert-leaves-no-row")
 	} else {
 		symAssert(err == nil, "insert-ok")
+		// a row that breaks NOT NULL and the key constraint at once is
+		// reported as NOT NULL (SQLite checks NOT NULL first)
+		if bNotNull {
+			_, err := vt.Insert(vAt(150), map[int]interface{}{0: int64(1), 1: nil, 2: c})
+			symAssert(err == ErrS3DBConstraintNotNull, "not-null-reported-before-the-key-constraint")
+		}
 		// UPDATE assigning NULL to a NOT NULL column is refused as well and changes nothing
 		before, _ := vScan(vt)
 		err := vt.Update(vAt(200), int64(1), map[int]interface{}{1: nil})
